@@ -16,8 +16,9 @@
   the five interpolation kernels as `Interp.Interpolant` (samples `(s, s', s'')` of the interpolant built on the nodes) and
   `numpy.linalg.lstsq` as a function of the matrix and the 1-d right-hand side.  `numpy.log` / `numpy.exp` are the two functions of the
   `ExpLog` instance, whatever they are — the semantics maps the NAME `numpy.log` to `ExpLog.log` wherever it occurs, and no other name.
-  `CijProofs/Lemmas/ModeGammaGlueSource.lean` proves that the hand-written model of `CijModel/Interp.lean` is the interpretation of the
-  generated data, for all inputs.
+  `CijProofs/Lemmas/ModeGammaGlueSource.lean` proves that the hand-written model of `CijModel/Interp.lean` (`interpolateModeF`,
+  `interpolateModesF`: with the `ValueError` of `[::0]` and the `IndexError` of a missing `q_points[j]` / `modes[k]`, both of which this
+  interpreter raises) is the interpretation of the generated data, for all inputs.
 -/
 import CijModel.Interp
 
